@@ -1289,7 +1289,14 @@ class DateTime(datetime.datetime, Date):
         time: datetime.time,
         tzinfo: datetime.tzinfo | None = None,
     ) -> Self:
-        return cls.instance(datetime.datetime.combine(date, time), tz=tzinfo)
+        if tzinfo is None:
+            dt = datetime.datetime.combine(date, time)
+        else:
+            # An explicit tzinfo replaces the one carried by ``time``,
+            # as it does for the native class.
+            dt = datetime.datetime.combine(date, time, tzinfo)
+
+        return cls.instance(dt, tz=tzinfo)
 
     def astimezone(self, tz: datetime.tzinfo | None = None) -> Self:
         dt = super().astimezone(tz)
